@@ -631,7 +631,7 @@ func connBody(c *runner.Ctx) {
 		op := c.Choose(12, "op")
 		switch {
 		case op < 5: // subscribe
-			g := &gen{c: c, w: w, budget: 10, unionFrags: c.Choose(4, "union-type-fragments") == 1, rootTN: true}
+			g := &gen{c: c, w: w, budget: 10, unionFrags: c.Choose(4, "union-type-fragments") == 1, rootTN: true, bareFrags: true}
 			root := g.genSet("Query", 0)
 			if c.Choose(4, "directives") == 1 {
 				g.dirs = true
